@@ -380,7 +380,8 @@ func (g *Gtp5g) newPdi(i *ie.IE) (nl.AttrList, error) {
 	return attrs, nil
 }
 
-func (g *Gtp5g) CreatePDR(lSeid uint64, req *ie.IE) error {
+func (g *Gtp5g) CreatePDR(lSeid uint64, req *ie.IE) (rerr error) {
+	defer ieFault(&rerr)
 	var pdrid uint64
 	var attrs []nl.Attr
 
@@ -474,7 +475,8 @@ func (g *Gtp5g) CreatePDR(lSeid uint64, req *ie.IE) error {
 	return gtp5gnl.CreatePDROID(g.client, g.link.link, oid, attrs)
 }
 
-func (g *Gtp5g) UpdatePDR(lSeid uint64, req *ie.IE) error {
+func (g *Gtp5g) UpdatePDR(lSeid uint64, req *ie.IE) (rerr error) {
+	defer ieFault(&rerr)
 	var pdrid uint64
 	var attrs []nl.Attr
 
@@ -564,6 +566,16 @@ func (g *Gtp5g) RemovePDR(lSeid uint64, req *ie.IE) error {
 	return gtp5gnl.RemovePDROID(g.client, g.link.link, oid)
 }
 
+// ieFault turns a fault raised while walking a rule IE (go-pfcp's IE decoders
+// index past the end of a malformed payload in places) into an error of the
+// operation, so that one malformed IE fails one rule instead of ending the
+// PFCP event loop.
+func ieFault(err *error) {
+	if p := recover(); p != nil {
+		*err = errors.Errorf("malformed IE: %v", p)
+	}
+}
+
 // outerHeaderCreation decodes an Outer Header Creation IE. The go-pfcp decoder
 // faults (index out of range) on a C-TAG or S-TAG field; that is reported as a
 // decoding error here instead of taking the event loop down.
@@ -643,7 +655,8 @@ func (g *Gtp5g) newForwardingParameter(ies []*ie.IE) (nl.AttrList, error) {
 	return attrs, nil
 }
 
-func (g *Gtp5g) CreateFAR(lSeid uint64, req *ie.IE) error {
+func (g *Gtp5g) CreateFAR(lSeid uint64, req *ie.IE) (rerr error) {
+	defer ieFault(&rerr)
 	var farid uint64
 	var attrs []nl.Attr
 
@@ -704,7 +717,8 @@ func (g *Gtp5g) CreateFAR(lSeid uint64, req *ie.IE) error {
 	return gtp5gnl.CreateFAROID(g.client, g.link.link, oid, attrs)
 }
 
-func (g *Gtp5g) UpdateFAR(lSeid uint64, req *ie.IE) error {
+func (g *Gtp5g) UpdateFAR(lSeid uint64, req *ie.IE) (rerr error) {
+	defer ieFault(&rerr)
 	var farid uint64
 	var attrs []nl.Attr
 	var acts []report.ApplyAction
@@ -782,7 +796,8 @@ func (g *Gtp5g) RemoveFAR(lSeid uint64, req *ie.IE) error {
 	return gtp5gnl.RemoveFAROID(g.client, g.link.link, oid)
 }
 
-func (g *Gtp5g) CreateQER(lSeid uint64, req *ie.IE) error {
+func (g *Gtp5g) CreateQER(lSeid uint64, req *ie.IE) (rerr error) {
+	defer ieFault(&rerr)
 	var qerid uint64
 	var attrs []nl.Attr
 
@@ -918,7 +933,8 @@ func (g *Gtp5g) CreateQER(lSeid uint64, req *ie.IE) error {
 	return gtp5gnl.CreateQEROID(g.client, g.link.link, oid, attrs)
 }
 
-func (g *Gtp5g) UpdateQER(lSeid uint64, req *ie.IE) error {
+func (g *Gtp5g) UpdateQER(lSeid uint64, req *ie.IE) (rerr error) {
+	defer ieFault(&rerr)
 	var qerid uint64
 	var attrs []nl.Attr
 
@@ -1131,7 +1147,8 @@ func (g *Gtp5g) newVolumeQuota(i *ie.IE) (nl.AttrList, error) {
 	return attrs, nil
 }
 
-func (g *Gtp5g) CreateURR(lSeid uint64, req *ie.IE) error {
+func (g *Gtp5g) CreateURR(lSeid uint64, req *ie.IE) (rerr error) {
+	defer ieFault(&rerr)
 	var urrid uint32
 	var measureMethod uint8
 	var rptTrig report.ReportingTrigger
@@ -1226,7 +1243,8 @@ func (g *Gtp5g) CreateURR(lSeid uint64, req *ie.IE) error {
 	return gtp5gnl.CreateURROID(g.client, g.link.link, oid, attrs)
 }
 
-func (g *Gtp5g) UpdateURR(lSeid uint64, req *ie.IE) ([]report.USAReport, error) {
+func (g *Gtp5g) UpdateURR(lSeid uint64, req *ie.IE) (_ []report.USAReport, rerr error) {
+	defer ieFault(&rerr)
 	var urrid uint64
 	var attrs []nl.Attr
 	var usars []report.USAReport
@@ -1386,7 +1404,8 @@ func (g *Gtp5g) RemoveURR(lSeid uint64, req *ie.IE) ([]report.USAReport, error) 
 	return usars, err
 }
 
-func (g *Gtp5g) CreateBAR(lSeid uint64, req *ie.IE) error {
+func (g *Gtp5g) CreateBAR(lSeid uint64, req *ie.IE) (rerr error) {
+	defer ieFault(&rerr)
 	var barid uint64
 	var attrs []nl.Attr
 
@@ -1429,7 +1448,8 @@ func (g *Gtp5g) CreateBAR(lSeid uint64, req *ie.IE) error {
 	return gtp5gnl.CreateBAROID(g.client, g.link.link, oid, attrs)
 }
 
-func (g *Gtp5g) UpdateBAR(lSeid uint64, req *ie.IE) error {
+func (g *Gtp5g) UpdateBAR(lSeid uint64, req *ie.IE) (rerr error) {
+	defer ieFault(&rerr)
 	var barid uint64
 	var attrs []nl.Attr
 
